@@ -57,10 +57,13 @@ namespace igris
         igris::unbounded_array<char> _history_space = {};
         igris::unbounded_array<char> _buffer_space = {};
 
-        uint8_t _headhist = 0; // Индекс в массиве, куда будет перезаписываться
-                               // новая строка истории.
-        uint8_t _curhist = 0; // Индекс выбора строки истории (0-пустая,
-                              // 1-последняя, 2-предпоследняя и т.д.)
+        // as wide as history_size() (with uint8_t a history deeper than 255
+        // lines wrapped: the 256th Up showed the empty line, the ring lost
+        // its newest entry)
+        unsigned int _headhist = 0; // Индекс в массиве, куда будет
+                                    // перезаписываться новая строка истории.
+        unsigned int _curhist = 0; // Индекс выбора строки истории (0-пустая,
+                                   // 1-последняя, 2-предпоследняя и т.д.)
 
     public:
         size_t lastsize()
